@@ -519,9 +519,13 @@ func (f *FrameV1) SetAppendixData(appendix []byte) error {
 		f.data = f.data[:origDataSize]
 		return errors.New("appendix data too big")
 
-	case len(appendix) > len(f.data)-f.appendixIndex:
+	case len(appendix) > len(f.data)-f.appendixIndex-f.requiredOverhead():
+		// Move the frame to a bigger pooled slice, keeping the required overhead.
 		f.data = f.data[:origDataSize]
-		return errors.New("not enough space for appendix")
+		if err := f.growForAppendix(len(appendix)); err != nil {
+			return err
+		}
+		fallthrough
 
 	default:
 		// Write new appendix.
@@ -533,6 +537,38 @@ func (f *FrameV1) SetAppendixData(appendix []byte) error {
 
 		return nil
 	}
+}
+
+// growForAppendix moves the frame to a pooled slice that is big enough to hold
+// an appendix of the given size. The data slice is left expanded to its capacity.
+func (f *FrameV1) growForAppendix(appendixSize int) error {
+	if f.builder == nil {
+		return errors.New("not enough space for appendix")
+	}
+	ps := f.builder.GetPooledSlice(f.psDataOffset + f.appendixIndex + appendixSize + f.requiredOverhead())
+	if ps == nil {
+		return errors.New("not enough space for appendix")
+	}
+
+	// Copy everything up to the appendix, including the offset margin.
+	if f.pooledSlice != nil {
+		copy(ps, f.pooledSlice[:f.psDataOffset+f.appendixIndex])
+		f.builder.ReturnPooledSlice(f.pooledSlice)
+	} else {
+		copy(ps[f.psDataOffset:], f.data[:f.appendixIndex])
+	}
+	f.pooledSlice = ps
+	f.data = ps[f.psDataOffset:]
+	return nil
+}
+
+// requiredOverhead returns the overhead margin that must stay free after the frame data.
+func (f *FrameV1) requiredOverhead() int {
+	if f.builder == nil {
+		return 0
+	}
+	_, overhead := f.builder.FrameMargins()
+	return overhead
 }
 
 // FrameDataWithMargins returns the whole frame, including the given offset and overhead.
